@@ -175,6 +175,7 @@ def var_names(texts):
     for t in texts:
         for m in _VAR_RE.finditer(t):
             n = m.group(1) if m.group(1) is not None else m.group(2)
+            n = n.lstrip(".")          # "$(.s.x)" is anchored at the root
             out.add(n)
             out.add(n.split(".")[0])
     return {n for n in out if n and "=" not in n and "\0" not in n}
@@ -679,14 +680,77 @@ def render_source(items, ind=""):
     return "".join(out)
 
 
+VAR_TARGETS = [["v"], ["s", "x"], ["t", "y"], ["s", "t", "z"], ["vs", "x"], ["vs", "t", "z"]]
+REF_FORMS = ["$(%s)", "$(%s)", "$(.%s)", "$%s", "x$(%s)", '"$(%s)"', "$(%s) 1"]
+
+
+def var_target_item(rng, comps, value, disabled):
+    """One candidate for the variable path [comps]: a definition, a brace-style scope chain or a dotted name;
+    disabled = None | "def" | "scope" (outermost scope / the dotted head) | "inner" (an inner scope)."""
+    if len(comps) == 1:
+        return ["d", comps[0], 1 if disabled else 0, value]
+    style = rng.choice(["brace", "brace", "dotted", "mixed"]) if len(comps) > 2 else rng.choice(["brace", "brace", "dotted"])
+    if style == "dotted":
+        # "!s.x = 5": the definition is disabled inside enabled prefix scopes
+        return ["d", ".".join(comps), 1 if disabled else 0, value]
+    if style == "mixed":
+        # "!s.t { z = 5 }": the inner scope t is disabled inside an enabled prefix scope s
+        head = ".".join(comps[:-1])
+        return ["s", head, 1 if disabled in ("scope", "inner") else 0, [["d", comps[-1], 1 if disabled == "def" else 0, value]]]
+    item = ["d", comps[-1], 1 if disabled == "def" else 0, value]
+    for i in range(len(comps) - 2, -1, -1):
+        dis = 1 if ((disabled == "scope" and i == 0) or (disabled == "inner" and i == len(comps) - 2)) else 0
+        item = ["s", comps[i], dis, [item]]
+    return item
+
+
+def gen_var_group(rng, paths):
+    """Candidates for one variable path followed by a consumed definition that refers to it: disabled scopes
+    (brace and dotted-name style) and disabled definitions BEFORE the reference, as the only candidate or as
+    the nearer candidate shadowing an enabled earlier one; at top level or nested inside the master scope
+    that holds the referring definition.  Returns source items."""
+    defs = [(p, it) for p, it in paths if it[0] == "d"]
+    if not defs:
+        return []
+    p, it = rng.choice(defs)
+    deep = [(q, j) for q, j in defs if len(q) >= 2]
+    targets = list(VAR_TARGETS) + [list(q) for q, _ in deep[:3]]
+    comps = rng.choice(targets)
+    pattern = rng.choice([["D"], ["E", "D"], ["E", "D"], ["D", "E"], ["D", "D"], ["E"], ["E", "D", "D"], ["D", "E", "D"]])
+    cands = []
+    for n, kind in enumerate(pattern):
+        disabled = None
+        if kind == "D":
+            disabled = rng.choice(["def", "scope", "scope", "inner"]) if len(comps) > 1 else "def"
+        cands.append(var_target_item(rng, comps, rng.choice(["1", "2", "x", "y", "True"]) if n else rng.choice(["3", "z", "False"]), disabled))
+    ref = rng.choice(REF_FORMS) % ".".join(comps)
+    nested = len(p) >= 2 and rng.random() < 0.35
+    if nested:
+        # everything inside the master scope that holds the referring definition (relative lookup searches upward)
+        block = cands + [["d", p[-1], 0, ref]]
+        for name in reversed(p[:-1]):
+            block = [["s", name, 0, block]]
+        if rng.random() < 0.4:
+            # an enabled candidate at top level as well: the nested disabled one must not shadow it
+            block = [var_target_item(rng, comps, "9", None)] + block
+        return block
+    items = list(cands)
+    place(rng, items, list(p), ref, 0, 0)
+    return items
+
+
 def gen_source(rng, paths, nvars, profile="shape"):
     items = []
     if nvars:
-        # variable definitions the assignments may refer to (possibly disabled: F10)
+        # variable definitions the assignments may refer to (possibly disabled)
         for v in ["v", "w"][: rng.randint(0, 2)]:
             items.append(["d", v, 1 if rng.random() < 0.25 else 0, rng.choice(["3", "x y", "True", "$w", "y"])])
+        if rng.random() < 0.6:
+            items.extend(gen_var_group(rng, paths))
     for comps, value, dis, disup in gen_assignments(rng, paths, nvars, profile):
         place(rng, items, comps, value, dis, disup)
+    if nvars and rng.random() < 0.25:
+        items.extend(gen_var_group(rng, paths))
     return render_source(items)
 
 
